@@ -18,11 +18,12 @@ class Pkg:
 
 def gen_tree(rng, base):
     """1-4 packages: the application, registry dependencies under build/packages, path dependencies next to it"""
-    app = Pkg("app", base + "/app", "root")
+    # the application itself may live under a directory that looks like part of build/packages
+    app = Pkg("app", base + rng.choice(["/app", "/app", "/app", "/packages/app", "/mono/build/app"]), "root")
     pkgs = [app]
     for i in range(rng.randrange(0, 4)):
         if rng.random() < 0.5:
-            p = Pkg(f"dep{i}", f"{base}/app/build/packages/dep{i}", "registry")
+            p = Pkg(f"dep{i}", f"{app.root}/build/packages/dep{i}", "registry")
         else:
             # a path dependency may live anywhere, also under a directory that merely looks like part of build/packages
             where = rng.choice([f"{base}/lib{i}", f"{base}/lib{i}", f"{base}/packages/lib{i}", f"{base}/build/lib{i}", f"{base}/vendor/packages/lib{i}"])
@@ -236,7 +237,11 @@ def run_e2e(res, tb, pkgs):
                     target = "file://" + os.path.normpath(target[7:])
             # a module is importable from the application iff its package is the application or a DIRECT dependency;
             # equal module names: the importing package's own module, then its direct dependencies
-            visible = [q for q in [app] + direct if any(m == p.files[path][0] and "/test/" not in f for f, (m, _) in q.files.items())]
+            # (src/ and test/ files both claim their module name; several claimants = the layout does not fix the winner)
+            claims = [f for q in [app] + direct for f, (m, _) in q.files.items() if m == p.files[path][0]]
+            visible = [q for q in [app] + direct if any(m == p.files[path][0] for f, (m, _) in q.files.items())]
+            if len(claims) > 1 and len(visible) == 1:
+                visible = visible * 2
             if p in direct or p is app:
                 if target is None and len(visible) > 1:
                     pass    # equal module names in several visible packages: which one wins is not fixed by the layout
